@@ -270,6 +270,9 @@ def main_check(argv):
 
 def extract_floor_check(facts):
     nl, nb = len(facts.lib.body_list), len(facts.bin.body_list)
+    lost = list(facts.lib.j.get("skipped") or []) + list(facts.bin.j.get("skipped") or [])
+    if lost:
+        raise extract.CheckerError("the extractor could not read %d function bodies (stolen before extraction): %s" % (len(lost), lost[:6]))
     if nl < extract.LIB_BODY_FLOOR or nb < extract.BIN_BODY_FLOOR:
         raise extract.CheckerError("fact files too small: %d lib / %d bin bodies (floors %d / %d)" % (
             nl, nb, extract.LIB_BODY_FLOOR, extract.BIN_BODY_FLOOR))
